@@ -20,7 +20,7 @@ class code2:
     with
 
     .. math::
-        I_\text{quad.|lin.}(\alpha; I^0, I^+, I^-) = \begin{cases} (b + 2a)(\alpha - 1) \qquad \alpha \geq 1\\  a\alpha^2 + b\alpha \qquad |\alpha| < 1 \\ (b - 2a)(\alpha + 1) \qquad \alpha < -1 \end{cases}
+        I_\text{quad.|lin.}(\alpha; I^0, I^+, I^-) = \begin{cases} (b + 2a)(\alpha - 1) + (a + b) \qquad \alpha \geq 1\\  a\alpha^2 + b\alpha \qquad |\alpha| < 1 \\ (b - 2a)(\alpha + 1) + (a - b) \qquad \alpha < -1 \end{cases}
 
     and
 
@@ -87,15 +87,16 @@ class code2:
         # a: alpha variation
         # h: histogram affected by modifier
         # b: bin of histogram
+        # linear extrapolation continues from the value of the quadratic at alpha = +/-1
         value_gt1 = tensorlib.einsum(
             'sa,shb->shab', alphasets - self.mask_on, self.b_plus_2a
-        )
+        ) + tensorlib.einsum('sa,shb->shab', self.mask_on, self.a + self.b)
         value_btwn = tensorlib.einsum(
             'sa,sa,shb->shab', alphasets, alphasets, self.a
         ) + tensorlib.einsum('sa,shb->shab', alphasets, self.b)
         value_lt1 = tensorlib.einsum(
-            'sa,shb->shab', alphasets + self.mask_off, self.b_minus_2a
-        )
+            'sa,shb->shab', alphasets + self.mask_on, self.b_minus_2a
+        ) + tensorlib.einsum('sa,shb->shab', self.mask_on, self.a - self.b)
 
         masks_gt1 = tensorlib.astensor(
             tensorlib.einsum(
@@ -111,12 +112,12 @@ class code2:
         )
 
         # first, build a result where:
-        #       alpha > 1   : fill with (b+2a)(alpha - 1)
+        #       alpha > 1   : fill with (b+2a)(alpha - 1) + (a+b)
         #   not(alpha > 1)  : fill with (a * alpha^2 + b * alpha)
         results_gt1_btwn = tensorlib.where(masks_gt1, value_gt1, value_btwn)
         # then, build a result where:
         #      alpha >= -1  : do nothing (fill with previous result)
-        #   not(alpha >= -1): fill with (b-2a)(alpha + 1)
+        #   not(alpha >= -1): fill with (b-2a)(alpha + 1) + (a-b)
         return tensorlib.where(masks_not_lt1, results_gt1_btwn, value_lt1)
 
 
@@ -125,11 +126,11 @@ class _slow_code2:
         a = 0.5 * (up + down) - nom
         b = 0.5 * (up - down)
         if alpha > 1:
-            delta = (b + 2 * a) * (alpha - 1)
+            delta = (b + 2 * a) * (alpha - 1) + (a + b)
         elif -1 <= alpha <= 1:
             delta = a * alpha * alpha + b * alpha
         else:
-            delta = (b - 2 * a) * (alpha + 1)
+            delta = (b - 2 * a) * (alpha + 1) + (a - b)
         return delta
 
     def __init__(self, histogramssets, subscribe=True):
